@@ -345,6 +345,29 @@ def ctrl_spec(segs, num="float", cw=False):
     return {"t": "ctrl", "num": num, "segs": out}
 
 
+def random_teardrop(rng, center=(0, 0), size=10.0, cw=False, num="float"):
+    """Closed curve made of ONE cubic segment that ends where it starts (P0 == P3).  With P1 - P0 and
+    P2 - P0 linearly independent the loop is simple: B(t) - P0 = 3t(1-t)[(1-t)(P1-P0) + t(P2-P0)]."""
+    cx, cy = float(center[0]), float(center[1])
+    grid = 8
+
+    def q(v):
+        return Fr(round(v * grid), grid)
+
+    ang = rng.uniform(0, math.tau)
+    spread = rng.uniform(0.5, 2.2)
+    la, lb = rng.uniform(1.0, 2.5) * size, rng.uniform(1.0, 2.5) * size
+    p0 = (q(cx), q(cy))
+    p1 = (q(cx + la * math.cos(ang)), q(cy + la * math.sin(ang)))
+    p2 = (q(cx + lb * math.cos(ang + spread)), q(cy + lb * math.sin(ang + spread)))
+    cross = (p1[0] - p0[0]) * (p2[1] - p0[1]) - (p1[1] - p0[1]) * (p2[0] - p0[0])
+    if cross < 0:
+        p1, p2 = p2, p1
+    elif cross == 0:
+        p2 = (p2[0] + Fr(size).limit_denominator(8) + 1, p2[1])
+    return ctrl_spec([[p0, p1, p2, p0]], num, cw), {"family": "teardrop"}
+
+
 def random_blob(rng, center=(0, 0), size=10.0, degree=None, cw=False, mixed=None, num="float"):
     degree = degree or rng.choice([2, 2, 3])
     mixed = rng.random() < 0.2 if mixed is None else mixed
